@@ -155,6 +155,23 @@ def somigliana(chk, prog):
         fac = 1 - 2 * h * (1 + f + m - 2 * f * s2) / a + 3 * h * h / (a * a)
         return eq(gh, g0 * fac, "g(lat,h)")
     chk.ob("HEIGHT.formula", fn.ref, "g(lat,h) == g(lat,0) * (1 - 2h(1+f+m-2f sin^2)/a + 3h^2/a^2)", height, construct="free-air factor", **kw)
+    # special latitudes: exact 0 / +-90 take whatever equality-guarded arm the code has; the height must still be applied there
+    def special():
+        cls_ = prog.cls(GEO + "::ReferenceEllipsoid")
+        ge_s, gp_s = P.sym("ge"), P.sym("gp")
+        icpt = {cls_.lookup("equatorial_normal_gravity").ref: lambda it_, a_, k_: ge_s, cls_.lookup("polar_normal_gravity").ref: lambda it_, a_, k_: gp_s}
+        itg = Interp(prog, oracle=lambda c, i: False if c.op in ("<", ">", "<=", ">=") else None, intercepts=icpt)
+        og, *_ = ellipsoid(itg)
+        g_gen = itg.run(fn, [lat, h], self_obj=og)
+        outs = []
+        for cval in (0, 90, -90):
+            its = Interp(prog, oracle=lambda c, i: False if c.op in ("<", ">", "<=", ">=") else None, intercepts=icpt)
+            os_, *_ = ellipsoid(its)
+            got = its.run(fn, [P.const(cval), h], self_obj=os_)
+            outs.append(eq(got, g_gen.subs({"lat": P.const(cval)}), "g(%d, h)" % cval))
+        return all_of(*outs)
+    chk.ob("HEIGHT.special", fn.ref, "at latitude exactly 0 and +-90 the height-dependent closed form is the general one evaluated there", special,
+           construct="height at special latitudes", **kw)
     # regime switches on the height: every inequality-guarded arm of normal_gravity must return the same closed form
     seen = []
     probe = Interp(prog, oracle=lambda c, i: (seen.append(c) or False) if (c.op in ("<", ">", "<=", ">=") and i.func_stack and i.func_stack[-1].name == "normal_gravity") else (False if c.op in ("<", ">", "<=", ">=") else None))
